@@ -108,6 +108,7 @@ func wReset(nPkg, nDeps, nReg int) {
 	wTwoSets = false
 	wFaults = false
 	wLeafPkgs, wKindMask = false, 0
+	wSharedFinders = false
 }
 
 // wResetBuild: a second build of the same world (C13): counters and the target directory start
@@ -199,6 +200,36 @@ type wFinder struct {
 	kind int
 }
 
+// Shared finders: one finder object per kind, used for every location (what a caller with a single
+// module analyser does). It learns which package it is looking at from the files it is given (the
+// fetcher leaves a marker file) and which location from the sub-path it is asked to analyse.
+type wSharedFinder struct{ kind int }
+
+var wShared = []*wSharedFinder{{0}, {1}, {2}}
+var wSharedFinders bool
+
+func wMkFinder(n wNode, kind int) DependencyFinder {
+	if wSharedFinders {
+		return wShared[kind]
+	}
+	return wFinder{n, kind}
+}
+
+func (f *wSharedFinder) FindDependencies(fsys fs.FS, subPath string, deps *Dependencies) Diagnostics {
+	b, err := fs.ReadFile(fsys, "pkg.id")
+	if err != nil || len(b) != 1 {
+		verif.Assert("finder-can-read-the-package-it-is-given", false)
+		return nil
+	}
+	n := wNode{int(b[0] - '0'), 0}
+	for l, s := range wLocs {
+		if s == subPath {
+			n.loc = l
+		}
+	}
+	return wFinder{n, f.kind}.FindDependencies(fsys, subPath, deps)
+}
+
 type wWarning struct{ text string }
 
 func (w wWarning) Severity() DiagSeverity       { return DiagWarning }
@@ -245,18 +276,18 @@ func wFindDeps(f wFinder, k wFinderKey, deps *Dependencies, out Diagnostics) Dia
 	for _, d := range wDepsOf(k) {
 		switch d.kind {
 		case 1:
-			deps.AddRemoteSource(wSource(d.node), wFinder{d.node, d.finder})
+			deps.AddRemoteSource(wSource(d.node), wMkFinder(d.node, d.finder))
 		case 2:
 			if tgt, ok := wRelTarget(f.node, d.rel); ok {
 				l, _ := sourceaddrs.ParseLocalSource(d.rel)
-				deps.AddLocalSource(l, wFinder{tgt, d.finder})
+				deps.AddLocalSource(l, wMkFinder(tgt, d.finder))
 			}
 		case 3:
 			tgt := wRegistryTarget(d.reg, wRefSelect(d.set))
 			reg := sourceaddrs.RegistrySource{}
 			reg, _ = sourceaddrs.ParseRegistrySource(wRegPkg(d.reg).String() + wSubSuffix(d.regSub))
 			final := reg.FinalSourceAddr(tgt)
-			deps.AddRegistrySource(reg, wSets[d.set], wFinder{wNodeOf(final), d.finder})
+			deps.AddRegistrySource(reg, wSets[d.set], wMkFinder(wNodeOf(final), d.finder))
 		}
 	}
 	return out
@@ -337,6 +368,9 @@ func (wFetcher) FetchSourcePackage(ctx context.Context, sourceType string, u *ur
 		wContent[i] = c
 	}
 	envWriteFile(targetDir+"/main.tf", 0644, 1000, c)
+	if wSharedFinders {
+		envWriteFile(targetDir+"/pkg.id", 0644, 1000, string(rune('0'+i)))
+	}
 	envMkdir(targetDir+"/m", 0755, 1000)
 	envWriteFile(targetDir+"/m/mod.tf", 0644, 1000, c+"m")
 	if wExtras { // odd modes, an empty directory, an in-package link
@@ -476,7 +510,9 @@ func wClosure(adds []wFinderKey) (map[wFinderKey]bool, map[int]bool) {
 		}
 		seen[k] = true
 		pkgs[k.node.pkg] = true
-		for _, d := range wDeps[k] {
+		// wDepsOf, not wDeps[k]: a location the build never analysed still has dependencies in the
+		// world; they are drawn now, so that something the build failed to discover is missed
+		for _, d := range wDepsOf(k) {
 			switch d.kind {
 			case 1:
 				todo = append(todo, wFinderKey{d.node, d.finder})
@@ -486,7 +522,7 @@ func wClosure(adds []wFinderKey) (map[wFinderKey]bool, map[int]bool) {
 				}
 			case 3:
 				reg, _ := sourceaddrs.ParseRegistrySource(wRegPkg(d.reg).String() + wSubSuffix(d.regSub))
-				todo = append(todo, wFinderKey{wNodeOf(reg.FinalSourceAddr(wRegTarget[wVerKey(d.reg, wRefSelect(d.set))])), d.finder})
+				todo = append(todo, wFinderKey{wNodeOf(reg.FinalSourceAddr(wRegistryTarget(d.reg, wRefSelect(d.set)))), d.finder})
 				if regs != nil {
 					regs[wVerKey(d.reg, wRefSelect(d.set))] = true
 				}
